@@ -98,7 +98,8 @@ Idle == [op |-> "idle", done |-> TRUE, ret |-> "none", err |-> FALSE, xl |-> <<>
 Finish(fr, r) == [fr EXCEPT !.done = TRUE, !.ret = r]
 Fail(fr)      == [fr EXCEPT !.done = TRUE, !.ret = "error", !.err = TRUE]
 Logged(fr, x, n) == IF x.did THEN [fr EXCEPT !.xl = Append(@, n)] ELSE fr
-SizeStop(D, lim) == lim # Unl /\ Len(D.nodes) >= lim
+\* a size limit stops a driver only at a node that still has to be expanded (behaviour after the C15 fix)
+SizeStop(D, lim, n) == lim # Unl /\ Len(D.nodes) >= lim /\ ~D.nodes[n].expanded
 
 RECURSIVE AppendUnseen(_, _, _)
 AppendUnseen(q, seen, nxt) ==   \* for s in q: if s not in seen: seen.add(s); nxt.append(s)
@@ -121,7 +122,7 @@ BfsBegin(n, lvl, size) ==
 BfsStep(S, cfg, D, fr) ==
     IF fr.i <= Len(fr.cur) THEN
         LET node == fr.cur[fr.i] IN
-        IF SizeStop(D, fr.limsize) THEN <<D, Finish(fr, "false")>>
+        IF SizeStop(D, fr.limsize, node) THEN <<D, Finish(fr, "false")>>
         ELSE LET x == ExpandOne(S, D, node, cfg.maxm) IN
              IF x.err THEN <<x.d, Fail(fr)>>
              ELSE LET r == AppendUnseen(SortAsc(Succs(x.d, node)), fr.seen, fr.nxt)
@@ -143,7 +144,7 @@ DfsStep(S, cfg, D, fr) ==
     IF fr.stack = <<>> THEN <<D, Finish(fr, IF fr.complete THEN "true" ELSE "false")>>
     ELSE LET top  == Last(fr.stack)
              rest == Front(fr.stack) IN
-         IF ~top.has /\ SizeStop(D, fr.limsize) THEN <<D, Finish(fr, "false")>>
+         IF ~top.has /\ SizeStop(D, fr.limsize, top.n) THEN <<D, Finish(fr, "false")>>
          ELSE LET x  == IF top.has THEN [d |-> D, err |-> FALSE, did |-> FALSE]
                         ELSE ExpandOne(S, D, top.n, cfg.maxm) IN
               IF x.err THEN <<x.d, Fail(fr)>>
@@ -170,7 +171,7 @@ TgtStep(S, cfg, D, fr) ==
             sp   == D.nodes[node].space IN
         IF ~Consistent(sp, fr.target) \/ (Sub(sp, fr.target) /\ sp # fr.target)
         THEN <<D, [fr EXCEPT !.i = @ + 1]>>
-        ELSE IF SizeStop(D, fr.limsize) THEN <<D, Finish(fr, "false")>>
+        ELSE IF SizeStop(D, fr.limsize, node) THEN <<D, Finish(fr, "false")>>
         ELSE LET x == ExpandOne(S, D, node, cfg.maxm) IN
              IF x.err THEN <<x.d, Fail(fr)>>
              ELSE LET r == AppendUnseen(SortAsc(Succs(x.d, node)), fr.seen, fr.nxt)
@@ -198,7 +199,7 @@ MarkSkipped(D, n) == [ClearAttr(MarkExpanded(D, n, "other"), n) EXCEPT !.nodes[n
 SkipToMinimal(S, D, n, mts) ==
     IF D.nodes[n].expanded THEN <<D, "false">>
     ELSE IF Len(mts) = 1 /\ mts[1] = D.nodes[n].space
-         THEN <<ClearAttr(MarkExpanded(D, n, "other"), n), "true">>
+         THEN <<MarkExpanded(D, n, "other"), "true">>     \* no successors before or after: caches stay valid
     ELSE <<MarkSkipped(EnsureExpandedAll(S, D, n, mts), n), "true">>
 
 \* make_skip_node(n) of expand_minimal_spaces: all minimal traps of the start node, filtered
@@ -246,7 +247,7 @@ MinStep(S, cfg, D, fr) ==
         IF fr.rem = {} THEN <<D, Finish(fr, "true")>> ELSE <<D, Fail(fr)>>   \* assert len(minimal_traps) == 0
     ELSE LET top  == Last(fr.stack)
              rest == Front(fr.stack) IN
-         IF ~top.has /\ SizeStop(D, fr.limsize) THEN <<D, Finish(fr, "false")>>
+         IF ~top.has /\ SizeStop(D, fr.limsize, top.n) THEN <<D, Finish(fr, "false")>>
          ELSE LET x == IF top.has THEN [d |-> D, err |-> FALSE, did |-> FALSE]
                        ELSE ExpandOne(S, D, top.n, cfg.maxm) IN
               IF x.err THEN <<x.d, Fail(fr)>>
@@ -388,6 +389,11 @@ MustVisit(S, D, s, emot) ==
     LET sp == D.nodes[s].space
         av == {Meet(sp, m) : m \in {x \in emot : Consistent(sp, x)}}
     IN \E A \in S.attr : (\A u \in A : In(u, sp)) /\ ~InSome(A, av)
+\* the answers the reduced-STG query may give at this point (it may not miss an attractor)
+ASeedsOracleChoices(S, D, fr) ==
+    IF ASeedsNeedsOracle(D, fr)
+    THEN {TRUE} \cup (IF MustVisit(S, D, Last(fr.succ), fr.emot) THEN {} ELSE {FALSE})
+    ELSE {TRUE}
 ASeedsStep(S, cfg, D, fr, b) ==
     IF fr.phase = "min" THEN
         LET r == MinStep(S, cfg, D, fr.sub)
@@ -398,7 +404,7 @@ ASeedsStep(S, cfg, D, fr, b) ==
         IF fr.stack = <<>> THEN <<D, Finish(fr, "true")>>
         ELSE LET top  == Last(fr.stack)
                  rest == Front(fr.stack) IN
-             IF ~top.has /\ SizeStop(D, fr.limsize) THEN <<D, Finish(fr, "false")>>
+             IF ~top.has /\ SizeStop(D, fr.limsize, top.n) THEN <<D, Finish(fr, "false")>>
              ELSE LET x == IF top.has THEN [d |-> D, err |-> FALSE, did |-> FALSE]
                            ELSE ExpandOne(S, D, top.n, cfg.maxm) IN
                   IF x.err THEN <<x.d, Fail(fr)>>
